@@ -23,7 +23,6 @@
 package queue
 
 import (
-	"sync"
 	"sync/atomic"
 	"unsafe"
 )
@@ -33,7 +32,6 @@ type Queue struct {
 	head unsafe.Pointer // pointer to the head of the queue
 	tail unsafe.Pointer // pointer to the tail of the queue
 	len  int64          // length of the queue
-	pool sync.Pool
 }
 
 // item is a single node in the queue.
@@ -50,11 +48,6 @@ func NewQueue() *Queue {
 		head: unsafe.Pointer(dummy), // both head and tail point to the dummy node
 		tail: unsafe.Pointer(dummy),
 		len:  0,
-		pool: sync.Pool{
-			New: func() any {
-				return &item{}
-			},
-		},
 	}
 }
 
@@ -105,11 +98,8 @@ func (q *Queue) Dequeue() any {
 
 		// Try to advance the head
 		if atomic.CompareAndSwapPointer(&q.head, unsafe.Pointer(head), next) {
-			// Get the value before potentially releasing the node
+			// The old head is left untouched for the garbage collector (see getItem)
 			value := nextNode.v
-
-			// Release the old head node back to the pool
-			q.releaseItem(head)
 
 			// Decrement length atomically
 			atomic.AddInt64(&q.len, -1)
@@ -129,15 +119,13 @@ func (q *Queue) IsEmpty() bool {
 	return atomic.LoadInt64(&q.len) == 0
 }
 
-// getItem retrieves a node from the pool or creates a new one
+// getItem allocates a new node.
+//
+// Nodes are deliberately not recycled. The tail pointer may lag behind the head
+// and a producer may still hold a reference to a node that has already been
+// dequeued; both rely on that node keeping its next link. Recycling nodes (and
+// resetting next to nil on release) let a producer link a new node onto a
+// removed one, silently losing the enqueued value.
 func (q *Queue) getItem() *item {
-	return q.pool.Get().(*item)
-}
-
-// releaseItem returns a node to the pool for reuse
-func (q *Queue) releaseItem(i *item) {
-	// Reset i to prevent memory leaks
-	i.v = nil
-	i.next = nil
-	q.pool.Put(i)
+	return &item{}
 }
